@@ -1026,7 +1026,7 @@ func main() {
 		runOp(r, fmt.Sprintf("stress %s %d 0", hexB(s.unit), s.n))
 	}
 	if r.Thorough() {
-		// the two known stack-overflow classes at Go's default stack limit (the corpus holds scaled-down
+		// the parser stack-overflow class and the repaired lexer one at Go's default stack limit (the corpus holds scaled-down
 		// witnesses with a 32 MiB limit so that the quick tier stays quick)
 		runOp(r, "stress 28 1200000 0")
 		runOp(r, "stress 0a 4000000 0")
